@@ -7,6 +7,7 @@ import (
 	"go/parser"
 	"go/token"
 	"go/types"
+	"golang.org/x/tools/go/packages"
 	"sort"
 	"strings"
 
@@ -256,6 +257,140 @@ func (c *Ctx) lockConsistency(rel, typeName string, fields []string, rulePrefix 
 			return ok && sig.Recv() != nil && recvNamed(sig.Recv().Type()) == named
 		}
 	}
+	// read-modify-write in one critical section: a value stored into the shared state that was
+	// computed from a value read from it must not have crossed an Unlock (another worker's update
+	// between the two sections is overwritten)
+	for _, fi := range decls {
+		info := fi.Pkg.TypesInfo
+		isShared := func(e ast.Expr) bool {
+			for {
+				switch x := e.(type) {
+				case *ast.IndexExpr:
+					e = x.X
+					continue
+				case *ast.ParenExpr:
+					e = x.X
+					continue
+				case *ast.SelectorExpr:
+					for _, f := range fields {
+						if x.Sel.Name == f {
+							if sel, ok := info.Selections[x]; ok && sel.Kind() == types.FieldVal {
+								return true
+							}
+						}
+					}
+				}
+				return false
+			}
+		}
+		// where each local last read the shared state: local -> position of the defining statement
+		type sharedRead struct {
+			pos   token.Pos
+			field string
+		}
+		readAt := map[types.Object]sharedRead{}
+		fieldOf := func(e ast.Expr) string {
+			name := ""
+			ast.Inspect(e, func(n ast.Node) bool {
+				if x, ok := n.(*ast.SelectorExpr); ok && name == "" {
+					for _, f := range fields {
+						if x.Sel.Name == f {
+							if sel, ok := info.Selections[x]; ok && sel.Kind() == types.FieldVal {
+								name = f
+							}
+						}
+					}
+				}
+				return name == ""
+			})
+			return name
+		}
+		var unlocks []token.Pos
+		ast.Inspect(fi.Decl.Body, func(n ast.Node) bool {
+			switch x := n.(type) {
+			case *ast.DeferStmt:
+				return false
+			case *ast.CallExpr:
+				if name := calleeName(info, x); strings.HasPrefix(name, "sync.") && (strings.HasSuffix(name, ".Unlock") || strings.HasSuffix(name, ".RUnlock")) {
+					unlocks = append(unlocks, x.Pos())
+				}
+			}
+			return true
+		})
+		if len(unlocks) == 0 {
+			continue
+		}
+		mentionsShared := func(e ast.Expr) bool {
+			found := false
+			ast.Inspect(e, func(n ast.Node) bool {
+				if ex, ok := n.(ast.Expr); ok && isShared(ex) {
+					found = true
+				}
+				return !found
+			})
+			return found
+		}
+		ast.Inspect(fi.Decl.Body, func(n ast.Node) bool {
+			as, ok := n.(*ast.AssignStmt)
+			if !ok {
+				return true
+			}
+			for i, l := range as.Lhs {
+				if i >= len(as.Rhs) && len(as.Rhs) != 1 {
+					continue
+				}
+				rhs := as.Rhs[0]
+				if len(as.Rhs) == len(as.Lhs) {
+					rhs = as.Rhs[i]
+				}
+				if id, ok := l.(*ast.Ident); ok && id.Name != "_" {
+					obj := info.ObjectOf(id)
+					if mentionsShared(rhs) {
+						readAt[obj] = sharedRead{as.Pos(), fieldOf(rhs)}
+					} else {
+						// derived from locals that carry a read: inherit the earliest
+						ast.Inspect(rhs, func(m ast.Node) bool {
+							if rid, ok := m.(*ast.Ident); ok {
+								if p, has := readAt[info.ObjectOf(rid)]; has {
+									if old, had := readAt[obj]; !had || p.pos < old.pos {
+										readAt[obj] = p
+									}
+								}
+							}
+							return true
+						})
+					}
+					continue
+				}
+				if !isShared(l) {
+					continue
+				}
+				// a store into the shared state: which reads does the value come from?
+				ast.Inspect(rhs, func(m ast.Node) bool {
+					rid, ok := m.(*ast.Ident)
+					if !ok {
+						return true
+					}
+					rd, has := readAt[info.ObjectOf(rid)]
+					if !has || rd.field != fieldOf(l) {
+						return true // a value taken out of another part of the state is not an update of this one
+					}
+					p := rd.pos
+					for _, u := range unlocks {
+						if p < u && u < as.Pos() {
+							run.Oblige(false)
+							c.violate(rulePrefix+"/atomic-update", rel+"."+typeName+"."+fi.Fn.Name(), "store of "+rid.Name, as.Pos(),
+								typeName+"."+fi.Fn.Name()+" stores a value computed from "+rid.Name+", which was read from the shared state before the lock was released ("+c.P.Pos(u)+"): an update another goroutine makes between the two critical sections is overwritten")
+							return false
+						}
+					}
+					return true
+				})
+			}
+			return true
+		})
+		c.ok()
+	}
 	var ms []string
 	for m := range events {
 		ms = append(ms, m)
@@ -317,7 +452,8 @@ func CheckC12(c *Ctx) {
 	run.Trusted = []string{"go/types", "go/ssa + CHA (x/tools v0.29.0)", "sync/atomic and sync.Mutex semantics"}
 	c.syncCommandWiring()
 	c.workersPositive("cmd/indicator-sync", "sync/command")
-	c.assetNameCodec() // asset lists taken from a file-system target
+	c.factoryPurity("asset", "NewRepository", "sync/factory") // source and target of the command come from it
+	c.assetNameCodec()                                        // asset lists taken from a file-system target
 	fi := c.fn("asset", "Sync", "Run")
 	if fi == nil {
 		return
@@ -717,6 +853,7 @@ func CheckC13(c *Ctx) {
 	// Outcome(closings, those actions)
 	c.computeWithOutcomeWiring("backtest/direct-evaluation")
 	c.workersPositive("cmd/indicator-backtest", "backtest/command")
+	c.factoryPurity("backtest", "NewReport", "backtest/factory")
 	wFi := c.P.Method("backtest", "Backtest", "worker")
 	if wFi == nil {
 		wFi = c.goMethod(runFi) // the method Run starts with `go`, whatever it is called now
@@ -909,8 +1046,79 @@ func CheckC13(c *Ctx) {
 }
 
 // comparators: functions passed to sorting routines must not order floats through int(difference).
+// sortedIsUsed: what is sorted is what is presented. A sort applied to a local copy that nothing
+// reads afterwards leaves the ranking that is written in the order the results arrived.
+func (c *Ctx) sortedIsUsed() {
+	run := c.Run
+	n := 0
+	for _, pk := range c.P.Pkgs {
+		info := pk.TypesInfo
+		for _, f := range pk.Syntax {
+			if strings.HasSuffix(c.P.Fset.Position(f.Pos()).Filename, "_test.go") {
+				continue
+			}
+			for _, d := range f.Decls {
+				fd, ok := d.(*ast.FuncDecl)
+				if !ok || fd.Body == nil {
+					continue
+				}
+				ast.Inspect(fd.Body, func(nd ast.Node) bool {
+					call, ok := nd.(*ast.CallExpr)
+					if !ok || len(call.Args) == 0 {
+						return true
+					}
+					name := calleeName(info, call)
+					if !(strings.HasPrefix(name, "slices.Sort") || strings.HasPrefix(name, "sort.Slice") || name == "sort.Sort" || name == "sort.Stable") {
+						return true
+					}
+					id, isLocal := ast.Unparen(call.Args[0]).(*ast.Ident)
+					if !isLocal {
+						return true // a field or an element of shared state: read by whoever reads the state
+					}
+					obj := info.ObjectOf(id)
+					if v, ok := obj.(*types.Var); !ok || v.Parent() == v.Pkg().Scope() {
+						return true
+					}
+					n++
+					// a parameter is the caller's slice: sorted in place for the caller
+					isParam := false
+					for _, fl := range fd.Type.Params.List {
+						for _, nm := range fl.Names {
+							if info.ObjectOf(nm) == obj {
+								isParam = true
+							}
+						}
+					}
+					used := isParam
+					ast.Inspect(fd.Body, func(m ast.Node) bool {
+						if u, ok := m.(*ast.Ident); ok && u.Pos() > call.End() && info.Uses[u] == obj {
+							used = true
+						}
+						return !used
+					})
+					// or the local aliases shared state it was assigned from without copying (x := h.field)
+					if !used {
+						if def, ok := singleDefs(info, fd.Body)[obj]; ok {
+							if _, isSel := ast.Unparen(def).(*ast.SelectorExpr); isSel {
+								used = true
+							}
+						}
+					}
+					run.Oblige(used)
+					if !used {
+						c.violate("backtest/ranking", load.RelPkg(pk.PkgPath)+"."+fd.Name.Name, "sorted "+id.Name+" unused", call.Pos(), "the slice "+id.Name+" is sorted here and never read afterwards: what is written or returned is another slice, in the order its elements arrived")
+					}
+					return true
+				})
+			}
+		}
+	}
+	run.Count("sorted_locals", n)
+}
+
 func (c *Ctx) comparators() {
 	run := c.Run
+	c.sortedIsUsed()
 	n := 0
 	for _, pk := range c.P.Pkgs {
 		info := pk.TypesInfo
@@ -1206,18 +1414,22 @@ func (c *Ctx) syncCommandWiring() {
 	}
 	// (2) the hand-over
 	var assetsObj types.Object
-	ast.Inspect(fi.Decl.Body, func(n ast.Node) bool {
-		as, ok := n.(*ast.AssignStmt)
-		if !ok || len(as.Lhs) != 1 || len(as.Rhs) != 1 {
-			return true
-		}
-		if sel, ok := as.Lhs[0].(*ast.SelectorExpr); ok && sel.Sel.Name == "Assets" {
-			if id, ok := as.Rhs[0].(*ast.Ident); ok {
-				assetsObj = info.ObjectOf(id)
+	for _, fd := range packageFuncs(fi.Pkg) {
+		ast.Inspect(fd.Body, func(n ast.Node) bool {
+			as, ok := n.(*ast.AssignStmt)
+			if !ok || len(as.Lhs) != 1 || len(as.Rhs) != 1 {
+				return true
 			}
-		}
-		return true
-	})
+			if sel, ok := as.Lhs[0].(*ast.SelectorExpr); ok && sel.Sel.Name == "Assets" {
+				if e := argInMain(info, fi.Decl, fd, as.Rhs[0]); e != nil {
+					if id, ok := e.(*ast.Ident); ok {
+						assetsObj = info.ObjectOf(id)
+					}
+				}
+			}
+			return true
+		})
+	}
 	// the source repository is the first argument of sync.Run
 	var sourceObj types.Object
 	ast.Inspect(fi.Decl.Body, func(n ast.Node) bool {
@@ -1412,21 +1624,26 @@ func (c *Ctx) workersPositive(rel, rule string) {
 	info := fi.Pkg.TypesInfo
 	site := rel + ".main"
 	// variables bound to a command-line flag
-	flagVars := map[types.Object]bool{}
-	ast.Inspect(fi.Decl.Body, func(n ast.Node) bool {
-		call, ok := n.(*ast.CallExpr)
-		if !ok {
-			return true
-		}
-		if nm := calleeName(info, call); strings.HasPrefix(nm, "flag.") && strings.HasSuffix(nm, "Var") && len(call.Args) > 0 {
-			if u, ok := call.Args[0].(*ast.UnaryExpr); ok && u.Op == token.AND {
-				if id, ok := u.X.(*ast.Ident); ok {
-					flagVars[info.ObjectOf(id)] = true
+	flagVars := map[types.Object]bool{} // variables and struct fields bound to a flag, anywhere in the command
+	for _, fd := range packageFuncs(fi.Pkg) {
+		ast.Inspect(fd.Body, func(n ast.Node) bool {
+			call, ok := n.(*ast.CallExpr)
+			if !ok {
+				return true
+			}
+			if nm := calleeName(info, call); strings.HasPrefix(nm, "flag.") && strings.HasSuffix(nm, "Var") && len(call.Args) > 0 {
+				if u, ok := call.Args[0].(*ast.UnaryExpr); ok && u.Op == token.AND {
+					switch x := u.X.(type) {
+					case *ast.Ident:
+						flagVars[info.ObjectOf(x)] = true
+					case *ast.SelectorExpr:
+						flagVars[info.ObjectOf(x.Sel)] = true
+					}
 				}
 			}
-		}
-		return true
-	})
+			return true
+		})
+	}
 	defs := singleDefs(info, fi.Decl.Body)
 	const unknown = -1 << 40
 	var lower func(e ast.Expr, depth int) int64
@@ -1448,6 +1665,10 @@ func (c *Ctx) workersPositive(rel, rule string) {
 			}
 			if d, ok := defs[obj]; ok {
 				return lower(d, depth+1)
+			}
+		case *ast.SelectorExpr:
+			if flagVars[info.ObjectOf(x.Sel)] {
+				return 1
 			}
 		case *ast.CallExpr:
 			if id, ok := x.Fun.(*ast.Ident); ok {
@@ -1492,25 +1713,90 @@ func (c *Ctx) workersPositive(rel, rule string) {
 		return unknown
 	}
 	n := 0
-	ast.Inspect(fi.Decl.Body, func(nd ast.Node) bool {
-		as, ok := nd.(*ast.AssignStmt)
-		if !ok || len(as.Lhs) != len(as.Rhs) {
+	for _, fd := range packageFuncs(fi.Pkg) {
+		fd := fd
+		ast.Inspect(fd.Body, func(nd ast.Node) bool {
+			as, ok := nd.(*ast.AssignStmt)
+			if !ok || len(as.Lhs) != len(as.Rhs) {
+				return true
+			}
+			for i, l := range as.Lhs {
+				sel, ok := l.(*ast.SelectorExpr)
+				if !ok || sel.Sel.Name != "Workers" {
+					continue
+				}
+				n++
+				rhs := as.Rhs[i]
+				if e := argInMain(info, fi.Decl, fd, rhs); e != nil {
+					rhs = e
+				}
+				lb := lower(rhs, 0)
+				good := lb >= 1
+				run.Oblige(good)
+				if !good {
+					c.violate(rule, site, "Workers = "+short(exprString(as.Rhs[i]), 60), as.Pos(), "the worker count handed over ("+exprString(rhs)+") can be zero although the -workers flag is at least one: with no workers nothing is processed and the command still reports success")
+				}
+			}
+			return true
+		})
+	}
+	run.Count("worker_count_handovers", n)
+}
+
+// packageFuncs: the function declarations with bodies of a package's non-test files.
+func packageFuncs(pk *packages.Package) []*ast.FuncDecl {
+	var out []*ast.FuncDecl
+	for _, f := range pk.Syntax {
+		for _, d := range f.Decls {
+			if fd, ok := d.(*ast.FuncDecl); ok && fd.Body != nil {
+				out = append(out, fd)
+			}
+		}
+	}
+	return out
+}
+
+// argInMain: an expression used in a helper function of a command, seen from main: a parameter of
+// the helper is replaced by the argument main passes at its (single) call; an expression of main
+// itself is returned as it is; anything else is nil.
+func argInMain(info *types.Info, mainFn, fd *ast.FuncDecl, e ast.Expr) ast.Expr {
+	if fd == mainFn {
+		return e
+	}
+	id, ok := ast.Unparen(e).(*ast.Ident)
+	if !ok {
+		if sel, ok := ast.Unparen(e).(*ast.SelectorExpr); ok {
+			return sel // a field of a value (flags.workers): judged by the field
+		}
+		return nil
+	}
+	obj := info.ObjectOf(id)
+	idx := -1
+	i := 0
+	if fd.Type.Params != nil {
+		for _, fl := range fd.Type.Params.List {
+			for _, nm := range fl.Names {
+				if info.ObjectOf(nm) == obj {
+					idx = i
+				}
+				i++
+			}
+		}
+	}
+	if idx < 0 {
+		return nil
+	}
+	fnObj := info.ObjectOf(fd.Name)
+	var arg ast.Expr
+	ast.Inspect(mainFn.Body, func(n ast.Node) bool {
+		call, ok := n.(*ast.CallExpr)
+		if !ok || idx >= len(call.Args) {
 			return true
 		}
-		for i, l := range as.Lhs {
-			sel, ok := l.(*ast.SelectorExpr)
-			if !ok || sel.Sel.Name != "Workers" {
-				continue
-			}
-			n++
-			lb := lower(as.Rhs[i], 0)
-			good := lb >= 1
-			run.Oblige(good)
-			if !good {
-				c.violate(rule, site, "Workers = "+short(exprString(as.Rhs[i]), 60), as.Pos(), "the worker count handed over ("+exprString(as.Rhs[i])+") can be zero although the -workers flag is at least one: with no workers nothing is processed and the command still reports success")
-			}
+		if fn := callee(info, call); fn != nil && types.Object(fn) == fnObj {
+			arg = call.Args[idx]
 		}
 		return true
 	})
-	run.Count("worker_count_handovers", n)
+	return arg
 }
